@@ -257,6 +257,15 @@ func (sv *Solver) solveOne(c *Ctx, o Obl, timeout int, wantModel bool) OblResult
 			done = true
 		}
 	}
+	// Stage A1: the same query on z3's euf-first core: congruence/array reasoning before bit-blasting - decisive for
+	// goals that follow by transitivity over opaque arithmetic terms (and useless for genuinely arithmetic ones, hence short)
+	if !done && qf == "" {
+		st, out, ms := sv.run("z3-euf", q, short+1)
+		r.Ms += ms
+		if st == "unsat" {
+			r.Status, r.Solver, r.Output, done = "unsat", "z3-euf", firstLines(out, 1), true
+		}
+	}
 	// Stage A2: case split on the last control-flow join: the obligation's path condition is a disjunction of edge
 	// conditions; proving the goal under each of them separately is equivalent and usually much cheaper.
 	if !done && o.splitDepth < 2 {
